@@ -21,7 +21,8 @@ pub fn fmt_state(d: &Dump, slots: &[(usize, String)]) -> String {
     }
     let s: Vec<String> = slots.iter().map(|(i, e)| format!("{}:{}", i, e)).collect();
     let mut body = format!("c={} s={}", c, s.join(","));
-    if body.len() > 600 {
+    // HBV_FULL_DUMP=1: never abbreviate (used when two real builds are compared with each other)
+    if body.len() > 600 && std::env::var_os("HBV_FULL_DUMP").is_none() {
         body = format!("#{:016x}", fnv64(&body));
     }
     format!("m={} i={} g={} {}", d.bucket_mask, d.items, d.growth_left, body)
